@@ -139,7 +139,8 @@ impl<'a> LspServer<'a> {
             Ok(_params) => {
                 return request::Shutdown::METHOD;
             }
-            Err(req) => req,
+            Err(ExtractError::MethodMismatch(req)) => req,
+            Err(err) => return self.send_invalid_params(req_id, err),
         };
         let request = match Self::cast_request::<request::SemanticTokensFullRequest>(req) {
             Ok(params) => {
@@ -165,7 +166,8 @@ impl<'a> LspServer<'a> {
 
                 return request::SemanticTokensFullRequest::METHOD;
             }
-            Err(req) => req,
+            Err(ExtractError::MethodMismatch(req)) => req,
+            Err(err) => return self.send_invalid_params(req_id, err),
         };
 
         // Every request must be answered; this one is for a method that is not implemented.
@@ -178,18 +180,30 @@ impl<'a> LspServer<'a> {
         ""
     }
 
-    fn cast_request<T>(request: lsp_server::Request) -> Result<T::Params, lsp_server::Request>
+    fn cast_request<T>(
+        request: lsp_server::Request,
+    ) -> Result<T::Params, ExtractError<lsp_server::Request>>
     where
         T: lsp_types::request::Request,
         T::Params: DeserializeOwned,
     {
-        request
-            .extract(T::METHOD)
-            .map(|val| val.1)
-            .map_err(|e| match e {
-                ExtractError::MethodMismatch(n) => n,
-                err @ ExtractError::JsonError { .. } => panic!("Invalid request: {err:?}"),
-            })
+        request.extract(T::METHOD).map(|val| val.1)
+    }
+
+    /// Answers a request whose parameters are not what the method takes.
+    fn send_invalid_params(
+        &self,
+        request_id: RequestId,
+        err: ExtractError<lsp_server::Request>,
+    ) -> &'static str {
+        debug!("Invalid request: {err:?}");
+        let response = lsp_server::Response::new_err(
+            request_id,
+            lsp_server::ErrorCode::InvalidParams as i32,
+            format!("{err}"),
+        );
+        self.sender.send(Message::Response(response)).unwrap();
+        ""
     }
 
     fn send_response<R>(&self, request_id: RequestId, params: R::Result)
@@ -274,7 +288,11 @@ impl<'a> LspServer<'a> {
             .extract(T::METHOD)
             .map_err(|e| match e {
                 ExtractError::MethodMismatch(n) => n,
-                err @ ExtractError::JsonError { .. } => panic!("Invalid notification: {err:?}"),
+                err @ ExtractError::JsonError { .. } => {
+                    // A notification cannot be answered: one that is not understood is left out
+                    debug!("Invalid notification: {err:?}");
+                    lsp_server::Notification::new(String::new(), ())
+                }
             })
     }
 
